@@ -195,6 +195,30 @@ def register(R, tier="quick"):
                     "_maxlength": z3.Int("bmaxlength"), "_maxweight": z3.Real("bmaxweight"), "_blocklimit": z3.Int("blocklimit"),
                     "_byteids": False})
 
+    # ------------------------------------------------------------------ W3PostingsWriter._mini_weights (block weight code)
+    def mw_post(I, env):
+        """None exactly when every buffered weight is 1.0; one number exactly when they are all equal (and not all 1.0):
+        that number is the common weight; otherwise the weights themselves, in order"""
+        w = env["self"].fields["_weights"]
+        r = env["result"]
+        k = z3.Int("mwk")
+        inr = z3.And(0 <= k, k < w.n)
+        allone = z3.ForAll([k], z3.Implies(inr, z3.Select(w.arr, k) == 1))
+        alleq = z3.ForAll([k], z3.Implies(inr, z3.Select(w.arr, k) == z3.Select(w.arr, 0)))
+        if r is None:
+            return allone
+        if isinstance(r, SymList):
+            return z3.And(z3.Not(allone), z3.Not(alleq), r.n == w.n, z3.ForAll([k], z3.Implies(inr, z3.Select(r.arr, k) == z3.Select(w.arr, k))))
+        return z3.And(z3.Not(allone), alleq, to_z3(r) == z3.Select(w.arr, 0))
+
+    R.contract(W3 + ":W3PostingsWriter._mini_weights", props=["C10", "C09"], setup=lambda I: {"self": mk_pw(I)},
+               requires=[lambda I, env: env["self"].fields["_weights"].n >= 1],
+               ensures=[mw_post],
+               canaries=[Canary("all-ones-from-the-first", "if all((w == 1.0 for w in weights)):", "if weights[0] == 1.0:"),
+                         Canary("equal-to-last", "elif all((w == weights[0] for w in weights)):", "elif weights[0] == weights[-1]:")],
+               note="the compact codes of a block's weights (None = all 1.0, one number = all equal) are chosen exactly when "
+                    "they lose nothing: every weight of the block reads back as written")
+
     class ValueList(Abstract):
         """the list of encoded posting values of the buffered block: only its length matters here"""
         def __init__(self, I):
